@@ -24,7 +24,10 @@ class Node(object):
 
 
 class CFG(object):
-    def __init__(self, fn_node):
+    def __init__(self, fn_node, raising=None):
+        """raising: optional predicate(ast statement) -> True for statements that may raise even outside any try
+        (they get an exceptional edge to the exceptional exit)."""
+        self.raising = raising
         self.fn = fn_node
         self.nodes = []
         self.succ = {}
@@ -149,6 +152,8 @@ class CFG(object):
         n = self._simple(st, dangling, tag)
         if self._may_raise(st):
             self._exc_edges(n.id)
+        if self.raising is not None and self.raising(st) and not self._handlers and not self._finally:
+            self._edge(n.id, self.raise_exit.id, 'exc')
         if self._has_yield(st):
             # generator may be closed / thrown into at the yield
             if not self._handlers and not self._finally:
